@@ -180,6 +180,31 @@ func (x *Run) intrinsic(fr *Frame, st *State, fn *ssa.Function, args []Val, site
 			return single(st, Val{T: sel(sel(x.arr(st, x.visitedArr(mt)), args[0].T), args[1].T), S: SBool, Ty: types.Typ[types.Bool]}), true
 		}
 		return single(st, Val{T: "false", S: SBool}), true
+	case "FreshInIter":
+		// FreshInIter(p): p points to an object allocated during the current loop
+		// iteration (after the last loop head on this path)
+		base := int64(-1)
+		for _, e := range st.events {
+			if strings.HasPrefix(e.Name, "loop:") {
+				if n, ok := litInt(e.Ret.T); ok {
+					base = int64(n)
+				}
+			}
+		}
+		v := args[0]
+		if v.Inner != nil {
+			v = *v.Inner
+		}
+		ref := v.T
+		if v.Addr != nil && v.Addr.Kind == AObj {
+			ref = v.Addr.Ref
+		}
+		// objects allocated on the path are the literals (- k), k counting up
+		var k int64
+		if _, err := fmt.Sscanf(ref, "(- %d)", &k); err == nil && base >= 0 && k > base {
+			return single(st, Val{T: "true", S: SBool}), true
+		}
+		return single(st, Val{T: "false", S: SBool}), true
 	case "HandlerName":
 		// HandlerName(f): the name of the method a function value is bound to,
 		// looking through wrapper closures that capture exactly one function
@@ -826,9 +851,32 @@ func (x *Run) solveCached(body string) SolveResult {
 			r = r2
 		}
 	}
+	if *flagEachSolver && r.Status == "unsat" {
+		// thorough tier: a proof is accepted only if no other solver refutes the
+		// same query (disagreement means a solver or encoding problem and is
+		// reported, not hidden); solvers that give up do not count
+		for _, sp := range solvers {
+			if sp.name == r.Solver {
+				continue
+			}
+			r2 := solve(body, x.timeout, false, []string{sp.name})
+			eachSolverMu.Lock()
+			eachSolverRuns[sp.name+":"+r2.Status]++
+			eachSolverMu.Unlock()
+			if r2.Status == "sat" {
+				r = SolveResult{Status: "unknown", Solver: r.Solver + " vs " + sp.name, Raw: "solver disagreement: " + r.Solver + " unsat, " + sp.name + " sat", Ms: r.Ms + r2.Ms}
+				break
+			}
+		}
+	}
 	solveCache.Store(key, r)
 	return r
 }
+
+var (
+	eachSolverMu   sync.Mutex
+	eachSolverRuns = map[string]int{}
+)
 
 // evNameMatch: the event name contains pat, not followed by '$' (closures of
 // the named function are different events).
